@@ -4,7 +4,7 @@
 # copy of /repo (under /tmp/rig) with the patch applied. Used while long runs in /verif must not see a patched /repo.
 set -u
 PATCH=$(readlink -f "$1"); TIER=$2; shift 2
-RIG=/tmp/rig
+RIG=${RIG:-/tmp/rig}
 mkdir -p $RIG
 if [ ! -d $RIG/repo/.git ]; then git clone -q /repo $RIG/repo || exit 2; fi
 git -C $RIG/repo fetch -q origin && git -C $RIG/repo reset -q --hard origin/main && git -C $RIG/repo clean -fdq
